@@ -388,6 +388,7 @@ def word_items(rng, tier, langs=LANGS):
 def C02(tier, seed, st):
     res = Result("C02")
     rng = random.Random(seed)
+    check_K(res, random.Random(seed + 17), "quick")
     items = valid_items(rng, tier) + word_items(rng, tier)
     def judge(tag, expect, icls, iv, sacc, scls, xs, lang):
         if icls == "nil" and sacc != "accept":
@@ -487,6 +488,7 @@ def C03(tier, seed, st):
     res = Result("C03")
     rng = random.Random(seed)
     q = tier == "quick"
+    check_K(res, random.Random(seed + 17), "quick")
     items = []
     # damaged sentences
     for lang in LANGS:
@@ -555,6 +557,7 @@ def C15(tier, seed, st):
     res = Result("C15")
     rng = random.Random(seed)
     q = tier == "quick"
+    check_K(res, random.Random(seed + 17), "quick")
     items = []
     for lang in LANGS:
         t = gens.table(lang)
@@ -591,6 +594,7 @@ def C10(tier, seed, st):
     res = Result("C10")
     rng = random.Random(seed)
     q = tier == "quick"
+    check_K(res, random.Random(seed + 17), tier)
     pairs = []   # (tag, lang, base bytes, variant bytes)
     for lang in LANGS:
         t = gens.table(lang)
